@@ -260,7 +260,7 @@ impl WorldD {
                     out,
                     "C12",
                     "outstanding-ne-ledger",
-                    json!({"token_kind": self.token_kind(&d), "v1_migration_rebooked_contract_surplus": self.rebooked.contains(&(ch.clone(), d.clone()))}),
+                    json!({"token_kind": self.token_kind(&d), "old_version_migration_rebooked_contract_surplus": self.rebooked.contains(&(ch.clone(), d.clone()))}),
                     format!(
                         "channel {} denom {}: outstanding {} but sent {} - failed/timed-out {} - redeemed {} = {:?}",
                         ch, d, out_now, l.sent, l.failed, l.redeemed, want
@@ -268,7 +268,7 @@ impl WorldD {
                 );
             }
             if total_now != l.sent {
-                self.viol(out, "C12", "total-sent-ne-ledger", json!({"v1_migration_rebooked_contract_surplus": self.rebooked.contains(&(ch.clone(), d.clone()))}), format!("channel {} denom {}: total_sent {} but {} was sent", ch, d, total_now, l.sent));
+                self.viol(out, "C12", "total-sent-ne-ledger", json!({"old_version_migration_rebooked_contract_surplus": self.rebooked.contains(&(ch.clone(), d.clone()))}), format!("channel {} denom {}: total_sent {} but {} was sent", ch, d, total_now, l.sent));
             }
             if l.paid_out > l.sent {
                 self.viol(
@@ -539,6 +539,45 @@ impl WorldD {
         }
         if !matches!(kind.as_str(), "allow" | "update_admin") && (pre.admin != post.admin || pre.allowed != post.allowed || pre.default_gas_limit != post.default_gas_limit) {
             self.viol(out, "C18", "governance-state-changed-by-other-call", json!({"call": kind}), format!("{} changed admin / allow list / default gas limit", kind));
+        }
+    }
+
+    /// Versions before 0.13.1 updated the books only on a success acknowledgement (migrations.rs says so and
+    /// v2::update_balances exists to repair exactly that): rewrite the rows so that sends still in flight are not
+    /// booked. Rows are kept (at zero if need be) rather than deleted — whether the old code had a row for a
+    /// denomination that was never acknowledged is not derivable from this repository.
+    fn unbook_in_flight(&mut self, dump: &[(Vec<u8>, Vec<u8>)], ops: &mut Vec<(Binary, Option<Binary>)>, undo: &mut Vec<(Binary, Option<Binary>)>) {
+        let mut inflight: BTreeMap<(String, String), u128> = BTreeMap::new();
+        for p in &self.packets {
+            if p.status == PStatus::InFlight {
+                *inflight.entry((p.channel.clone(), p.denom.clone())).or_insert(0) += p.amount;
+            }
+        }
+        // only states the old code could have produced: every in-flight amount must still be fully outstanding
+        // (the old code could not have redeemed vouchers of a packet that was not acknowledged yet)
+        for ((ch, d), amt) in &inflight {
+            let key = rawkeys::map_key2("channel_state", ch.as_bytes(), d.as_bytes());
+            let okk = dump
+                .iter()
+                .find(|(k, _)| *k == key)
+                .and_then(|(_, v)| cosmwasm_std::from_json::<cw20_ics20::state::ChannelState>(v).ok())
+                .map(|st| st.outstanding.u128() >= *amt && st.total_sent.u128() >= *amt)
+                .unwrap_or(false);
+            if !okk {
+                return;
+            }
+        }
+        for ((ch, d), amt) in inflight {
+            let key = rawkeys::map_key2("channel_state", ch.as_bytes(), d.as_bytes());
+            if let Some((_, v)) = dump.iter().find(|(k, _)| *k == key) {
+                if let Ok(st) = cosmwasm_std::from_json::<cw20_ics20::state::ChannelState>(v) {
+                    let o = st.outstanding.u128().saturating_sub(amt);
+                    let t = st.total_sent.u128().saturating_sub(amt);
+                    undo.push((key.clone().into(), Some(v.clone().into())));
+                    ops.push((key.into(), Some(format!("{{\"outstanding\":\"{}\",\"total_sent\":\"{}\"}}", o, t).into_bytes().into())));
+                    self.meter.hit("migration_with_unbooked_in_flight_sends");
+                }
+            }
         }
     }
 
@@ -1225,7 +1264,7 @@ impl World for WorldD {
             2 => self.gen_settle(rng),
             3 => self.gen_gov(rng),
             4 if self.cfg.migrations => {
-                let sc = *rng.pick(&["same", "same_with_default", "v1", "v1_with_default"]);
+                let sc = *rng.pick(&["same", "same_with_default", "v1", "v1_with_default", "v2", "v2_with_default"]);
                 let msg = if sc.ends_with("with_default") { json!({"default_gas_limit": rng.range(100_000, 400_000)}) } else { json!({"default_gas_limit": null}) };
                 Step::Migrate { target: "ics20".into(), msg, scenario: Some(sc.split('_').next().unwrap().to_string()) }
             }
@@ -1289,14 +1328,31 @@ impl World for WorldD {
                         let vk = rawkeys::item_key("contract_info");
                         undo.push((vk.clone().into(), get(&vk)));
                         ops.push((vk.into(), Some(br#"{"contract":"crates.io:cw20-ics20","version":"0.11.1"}"#.to_vec().into())));
+                        self.unbook_in_flight(&dump, &mut ops, &mut undo);
+                        self.chain.sudo("ics20", &json!({"__surgery": ops}), None);
+                    }
+                    if sc == "v2" {
+                        // 0.12.0 .. 0.13.0: current config layout, but in-flight sends not yet in the books
+                        let dump = self.chain.dump("ics20");
+                        let get = |k: &[u8]| dump.iter().find(|(kk, _)| kk.as_slice() == k).map(|(_, v)| Binary::from(v.clone()));
+                        let mut ops: Vec<(Binary, Option<Binary>)> = vec![];
+                        let vk = rawkeys::item_key("contract_info");
+                        undo.push((vk.clone().into(), get(&vk)));
+                        ops.push((vk.into(), Some(br#"{"contract":"crates.io:cw20-ics20","version":"0.13.0"}"#.to_vec().into())));
+                        self.unbook_in_flight(&dump, &mut ops, &mut undo);
                         self.chain.sudo("ics20", &json!({"__surgery": ops}), None);
                     }
                     let r = self.chain.migrate(&wadmin, "ics20", msg);
                     let evs = self.chain.events(&r);
                     self.meter.token("migrate", &sc, if r.ok { "ok" } else { "failed" }, 0);
                     if r.ok {
+                        if sc == "v2" {
+                            self.meter.hit("migrated_from_v2_books");
+                        }
                         if sc == "v1" {
                             self.meter.hit("migrated_from_pre_allow_list_layout");
+                        }
+                        if sc == "v1" || sc == "v2" {
                             // did the migration book tokens the contract merely held (failed refunds) as outstanding?
                             if let (Some(pre), Some(post)) = (self.obs.clone(), self.observe()) {
                                 for b in &post.snap.books {
@@ -1306,15 +1362,17 @@ impl World for WorldD {
                                     let surplus = held.saturating_sub(pre_sum);
                                     if surplus > 0 && b.2 == pre_out + surplus {
                                         self.rebooked.insert((b.0.clone(), b.1.clone()));
-                                        self.meter.hit("v1_migration_rebooked_contract_surplus");
+                                        self.meter.hit("old_version_migration_rebooked_contract_surplus");
                                     }
                                 }
                             }
-                            // the past was different: restart the C18 monotonicity baseline
-                            self.prev_allowed = None;
-                            self.prev_default_gas = None;
-                            if msg["default_gas_limit"].is_null() {
-                                self.v1_migrated_without_default = true;
+                            if sc == "v1" {
+                                // the past was different: restart the C18 monotonicity baseline
+                                self.prev_allowed = None;
+                                self.prev_default_gas = None;
+                                if msg["default_gas_limit"].is_null() {
+                                    self.v1_migrated_without_default = true;
+                                }
                             }
                             let outstanding_cw20 = self.obs.as_ref().map(|o| o.snap.books.iter().any(|b| b.1.starts_with("cw20:") && b.2 > 0)).unwrap_or(false);
                             if outstanding_cw20 {
